@@ -56,8 +56,17 @@ def gen(seed):
         elif r < 0.55:
             faults.append([round(rng.uniform(0, t + 0.5), 4), "slow", b])
     refresh_removes = rng.random() < 0.25 and nb >= 2
+    double_refresh = nb >= 3 and rng.random() < 0.35
+    if double_refresh:
+        # make sure a broker client (with a connection) exists for every broker before the refreshes
+        # ... and only for the two that will be dropped, so that nothing else keeps close() waiting
+        topics = {"tall": {0: brokers[-1], 1: brokers[-2]}}
+        ops = [[0.0, "fetch", 0]] + [o for o in ops if o[1] in ("metadata_topic", "coordinator")][:2]
+        faults = []
+        refresh_removes = False
+        t = max(o[0] for o in ops)
     return dict(seed=seed, brokers=brokers, topics=topics, boot=boot, ops=ops, faults=faults,
-                refresh_removes=refresh_removes, cold=rng.random() < 0.5, latency=rng.choice((0.0, 0.002, 0.02)),
+                refresh_removes=refresh_removes, double_refresh=double_refresh, cold=rng.random() < 0.5, latency=rng.choice((0.0, 0.002, 0.02)),
                 timeout=rng.choice((0.5, 2.0)), close_from_callback=rng.random() < 0.2, horizon=t + 3.0)
 
 
@@ -99,7 +108,8 @@ def run_once(sc, close_step=None):
     """close_step None: baseline (close at the very end).  Returns a record."""
     from afkak import common as C
     random.seed(sc["seed"])
-    w = World(sc["seed"], brokers=sc["brokers"], latency=sc["latency"])
+    w = World(sc["seed"], brokers=sc["brokers"], latency=sc["latency"] or (0.02 if sc.get("double_refresh") else 0.0),
+              chunk="coalesce" if sc.get("double_refresh") else "whole")
     cl = w.cluster
     for t, parts in sc["topics"].items():
         cl.add_topic(t, {int(p): l for p, l in parts.items()})
@@ -236,6 +246,30 @@ def run_once(sc, close_step=None):
                         cl.leaders[key] = sc["brokers"][0]
                 launch("metadata_all", 0)
             w.clock.labelled(base - w.clock.seconds() + sc["horizon"] * 0.5, "fault.remove_broker", remove_and_refresh)
+        if sc.get("double_refresh"):
+            # two full refreshes in flight back to back, each dropping another broker: overlapping rounds of
+            # broker-client closing (nested close lists)
+            def double():
+                x, y = sc["brokers"][-1], sc["brokers"][-2]
+                keep = sc["brokers"][0]
+                for key in list(cl.leaders):
+                    cl.leaders[key] = keep
+                count = [0]
+
+                def scripted(ev):
+                    # first refresh after the trigger: x has left the cluster; second one: y too.  Both requests are
+                    # in flight together, so the second round of broker-client closing can start while the first
+                    # is still waiting for x's connection to go.
+                    if ev["req"]["topics"]:
+                        return None
+                    count[0] += 1
+                    brokers, topics = cl.metadata_view(())
+                    gone = (x,) if count[0] == 1 else (x, y)
+                    return [b for b in brokers if b[0] not in gone], topics
+                cl.metadata_override = scripted
+                launch("metadata_all", 0)
+                launch("metadata_all", 0)
+            w.clock.labelled(base - w.clock.seconds() + sc["horizon"] * 0.4, "fault.double_refresh", double)
         if close_step is not None and not sc["close_from_callback"]:
             def hook():
                 if rec["close"] is None and w.clock.steps - step0 >= close_step:
@@ -426,6 +460,9 @@ def run(spec):
         ks = base["interesting"][name]
         if ks:
             points.add(rng.choice(ks))
+            if name == "nested":
+                # rounds of broker-client closing may overlap: also close between and right after their completions
+                points.update(k for k in (ks[0], ks[-1], ks[-1] + 1) if k <= n)
     points = sorted(points)
     states = []
     for k in points:
